@@ -13,10 +13,20 @@
 (*   client has more than one monitor (client.go at the pinned commit).    *)
 (* Invariant: connected, all monitors restarted, nothing in flight  =>     *)
 (*   the cache holds exactly the rows of the database.                     *)
+(*                                                                         *)
+(* monitor_cond_since: a restarted monitor may quote the id of the last    *)
+(* transaction the client saw; a server that knows it (ServerKnows) then   *)
+(* replies with the rows changed since (found) instead of the whole table, *)
+(* and the client keeps its cache.  SinceVariant "intended": the id is     *)
+(* quoted only by a client with a single monitor (with several, the cache  *)
+(* is emptied before the restarts, so nothing may be left out of the       *)
+(* replies); "always": every restarted monitor quotes its id (refuted).    *)
+(* ghost is what the ids the client holds stand for: its cache as it would *)
+(* be had it never been emptied.                                           *)
 (***************************************************************************)
 EXTENDS Integers, Sequences, FiniteSets, TLC
 
-CONSTANTS Rows, TableOf, Monitors, MaxTxns, MaxCuts, PurgeVariant
+CONSTANTS Rows, TableOf, Monitors, MaxTxns, MaxCuts, PurgeVariant, SinceVariant, ServerKnows
 
 VARIABLES db, ntxn, ncuts,
           conn,        \* "up" | "down"
@@ -25,8 +35,10 @@ VARIABLES db, ntxn, ncuts,
           cache, deferU, deferred,
           todo,        \* monitors still to (re)start, in order
           pend,        \* monitor being restarted: "" or its name once the reply is at the client
-          replySnap, purged
-vars == <<db, ntxn, ncuts, conn, registered, chan, cache, deferU, deferred, todo, pend, replySnap, purged>>
+          replySnap, purged,
+          replyFound,  \* the reply being applied carries changes only
+          ghost
+vars == <<db, ntxn, ncuts, conn, registered, chan, cache, deferU, deferred, todo, pend, replySnap, purged, replyFound, ghost>>
 
 RowsOfMon(m) == {r \in Rows : TableOf[r] = Monitors[m]}
 MonSeq == CHOOSE s \in [1..Cardinality(DOMAIN Monitors) -> DOMAIN Monitors] : \A i, j \in DOMAIN s : i # j => s[i] # s[j]
@@ -35,6 +47,7 @@ Init == /\ db = [r \in Rows |-> 0] /\ ntxn = 0 /\ ncuts = 0 /\ conn = "up"
         /\ registered = {} /\ chan = <<>> /\ cache = [r \in Rows |-> 0]
         /\ deferU = TRUE /\ deferred = <<>> /\ todo = MonSeq /\ pend = ""
         /\ replySnap = [r \in {} |-> 0] /\ purged = FALSE
+        /\ replyFound = FALSE /\ ghost = [r \in Rows |-> 0]
 
 \* another client commits: every registered monitor of the table is notified
 Commit(r, new) ==
@@ -43,25 +56,30 @@ Commit(r, new) ==
     /\ db' = [db EXCEPT ![r] = new]
     /\ LET ms == {m \in registered : Monitors[m] = TableOf[r]}
        IN  chan' = IF conn = "up" /\ ms # {} THEN Append(chan, [kind |-> "upd", row |-> r, old |-> db[r], new |-> new]) ELSE chan
-    /\ UNCHANGED <<ncuts, conn, registered, cache, deferU, deferred, todo, pend, replySnap, purged>>
+    /\ UNCHANGED <<ncuts, conn, registered, cache, deferU, deferred, todo, pend, replySnap, purged, replyFound, ghost>>
 
 \* the connection is lost: everything in flight is lost, the server forgets the monitors
 Cut == /\ conn = "up" /\ ncuts < MaxCuts
        /\ ncuts' = ncuts + 1 /\ conn' = "down"
        /\ registered' = {} /\ chan' = <<>> /\ pend' = ""
-       /\ UNCHANGED <<db, ntxn, cache, deferU, deferred, todo, replySnap, purged>>
+       /\ UNCHANGED <<db, ntxn, cache, deferU, deferred, todo, replySnap, purged, replyFound, ghost>>
 
 \* a reconnect attempt succeeds: updates are deferred, every monitor is to be restarted
 Reconnect == /\ conn = "down"
              /\ conn' = "up" /\ deferU' = TRUE /\ deferred' = <<>> /\ todo' = MonSeq /\ purged' = FALSE
-             /\ UNCHANGED <<db, ntxn, ncuts, registered, chan, cache, pend, replySnap>>
+             /\ UNCHANGED <<db, ntxn, ncuts, registered, chan, cache, pend, replySnap, replyFound, ghost>>
 
-\* the next monitor is (re)started: registered, its reply carries the table's contents
+\* the next monitor is (re)started: registered; its reply carries the table's contents - or, when the client
+\* quotes the id of the last transaction it saw and the server knows it, the rows changed since
+QuotesId == ncuts > 0 /\ (SinceVariant = "always" \/ Cardinality(DOMAIN Monitors) = 1)
 Restart == /\ conn = "up" /\ todo # <<>> /\ pend = "" /\ Head(todo) \notin registered
            /\ LET m == Head(todo)
+                  found == ServerKnows /\ QuotesId
+                  snap == IF found THEN [r \in {x \in RowsOfMon(m) : db[x] # ghost[x]} |-> db[r]]
+                          ELSE [r \in RowsOfMon(m) |-> db[r]]
               IN  /\ registered' = registered \cup {m}
-                  /\ chan' = Append(chan, [kind |-> "reply", mon |-> m, snap |-> [r \in RowsOfMon(m) |-> db[r]]])
-           /\ UNCHANGED <<db, ntxn, ncuts, conn, cache, deferU, deferred, todo, pend, replySnap, purged>>
+                  /\ chan' = Append(chan, [kind |-> "reply", mon |-> m, snap |-> snap, found |-> found])
+           /\ UNCHANGED <<db, ntxn, ncuts, conn, cache, deferU, deferred, todo, pend, replySnap, purged, replyFound, ghost>>
 
 ApplyOne(c, u) == [c EXCEPT ![u.row] = IF c[u.row] = u.old THEN u.new ELSE -1]
 RECURSIVE ApplyDeferred(_, _)
@@ -72,11 +90,11 @@ ReadLoop ==
     /\ conn = "up" /\ chan # <<>>
     /\ LET msg == Head(chan)
        IN  IF msg.kind = "upd"
-           THEN /\ IF deferU THEN deferred' = Append(deferred, msg) /\ UNCHANGED cache
-                   ELSE cache' = ApplyOne(cache, msg) /\ UNCHANGED deferred
-                /\ UNCHANGED <<pend, replySnap>>
-           ELSE /\ pend = "" /\ pend' = msg.mon /\ replySnap' = msg.snap
-                /\ UNCHANGED <<cache, deferred>>
+           THEN /\ IF deferU THEN deferred' = Append(deferred, msg) /\ UNCHANGED <<cache, ghost>>
+                   ELSE cache' = ApplyOne(cache, msg) /\ ghost' = ApplyOne(ghost, msg) /\ UNCHANGED deferred
+                /\ UNCHANGED <<pend, replySnap, replyFound>>
+           ELSE /\ pend = "" /\ pend' = msg.mon /\ replySnap' = msg.snap /\ replyFound' = msg.found
+                /\ UNCHANGED <<cache, deferred, ghost>>
     /\ chan' = Tail(chan)
     /\ UNCHANGED <<db, ntxn, ncuts, conn, registered, deferU, todo, purged>>
 
@@ -84,16 +102,20 @@ ReadLoop ==
 ApplyReply ==
     /\ conn = "up" /\ pend # "" /\ todo # <<>> /\ Head(todo) = pend
     /\ LET many == Cardinality(DOMAIN Monitors) > 1
-           doPurge == IF PurgeVariant = "pinned" THEN (ncuts > 0 /\ many) \/ (ncuts > 0 /\ ~purged)
-                      ELSE ncuts > 0 /\ ~purged
+           \* with several monitors the cache is emptied before the first restart whatever the replies say; a
+           \* single monitor's cache is emptied unless the reply carries changes only
+           once == ncuts > 0 /\ ~purged /\ (many \/ ~replyFound)
+           doPurge == IF PurgeVariant = "pinned" THEN (ncuts > 0 /\ many) \/ once ELSE once
            base == IF doPurge THEN [r \in Rows |-> 0] ELSE cache
            withSnap == [r \in Rows |-> IF r \in DOMAIN replySnap THEN replySnap[r] ELSE base[r]]
+           gSnap == [r \in Rows |-> IF r \in DOMAIN replySnap THEN replySnap[r] ELSE ghost[r]]
        IN  /\ cache' = ApplyDeferred(withSnap, deferred)
+           /\ ghost' = ApplyDeferred(gSnap, deferred)
            /\ purged' = TRUE
     /\ deferU' = (PurgeVariant # "pinned" /\ Len(todo) > 1)   \* the repaired client defers until every restart is applied
     /\ deferred' = <<>>
     /\ todo' = Tail(todo) /\ pend' = ""
-    /\ UNCHANGED <<db, ntxn, ncuts, conn, registered, chan, replySnap>>
+    /\ UNCHANGED <<db, ntxn, ncuts, conn, registered, chan, replySnap, replyFound>>
 
 Next == \/ \E r \in Rows, v \in 0..2 : Commit(r, IF v = 0 THEN 0 ELSE ntxn + 1)
         \/ Cut \/ Reconnect \/ Restart \/ ReadLoop \/ ApplyReply
